@@ -172,6 +172,9 @@ var busModel = porcupine.Model{
 }
 
 func runC15L2(r *core.Run) (*core.Violation, func() *core.Violation) {
+	if r.Bool(25, "knob.chain-feed") {
+		return runC15Feed(r)
+	}
 	x := &c15l2{r: r, subs: map[int]pubsub.Subscriber{}}
 	s := NewSched(r)
 	atomic.StoreInt64(&eventSeq, 0)
